@@ -207,6 +207,28 @@ func formatGate(e *Env, rule string) {
 		r.Violate(rule, key+"#calls", fmt.Sprintf("%d calls of imports.Process and %d of format.Source, expected one each", len(procs), len(srcs)), nil)
 		return
 	}
+	// the import pass must prune: options are nil (defaults) or do not set FormatOnly
+	opt := procs[0].Common().Args[2]
+	okOpt := isNilConst(opt)
+	if !okOpt {
+		okOpt = true
+		if al, isAl := opt.(*ssa.Alloc); isAl {
+			for _, ref := range *al.Referrers() {
+				if fa, isFa := ref.(*ssa.FieldAddr); isFa && fieldName(fa) == "FormatOnly" {
+					for _, r2 := range *fa.Referrers() {
+						if st, isSt := r2.(*ssa.Store); isSt {
+							if c, isC := st.Val.(*ssa.Const); !isC || c.Value == nil || c.Value.String() != "false" {
+								okOpt = false
+							}
+						}
+					}
+				}
+			}
+		} else {
+			okOpt = false
+		}
+	}
+	r.Check(okOpt, rule, key+"#process-prunes", "imports.Process runs with pruning enabled (nil options, or options without FormatOnly): unused aliases registered by the compiler are removed", e.P.Pos(procs[0].Pos()))
 	pout := extractOf(procs[0], 0)
 	sout := extractOf(srcs[0], 0)
 	// Process input derives from format.Source output
